@@ -15,7 +15,9 @@ def main():
     out = []
     for j in jobs:
         try:
-            res = explore.explore(env, j['base'], j['bound'], limit=j.get('limit', 20000))
+            # Tie A broken: every line is a preemption point; keep the search bounded
+            lim = j.get('limit', 20000) if not env.get('skel_error') else min(j.get('limit', 20000), 400)
+            res = explore.explore(env, j['base'], j['bound'], limit=lim)
             out.append([sd for sd, _ in res])
         except Exception as e:      # never lose the whole chunk
             out.append({'error': '%s: %s' % (type(e).__name__, e)})
